@@ -304,6 +304,38 @@ fn run(e: &mut dyn Engine, toks: &[&str]) -> String {
 }
 
 pub fn dispatch(op: &str, a: &[&str]) -> Option<Ans> {
+    // stream_init_pull_view <key> <header>: `DryocStream::init_pull` with Vec containers of any length (ByteArray<N> for Vec asserts
+    // len ≥ N and views the prefix).  The object's state is not observable directly: it must open what a classic stream initialised
+    // from the 32 / 24-byte prefixes pushes; the answer then carries that classic state.
+    if op == "stream_init_pull_view" {
+        let (key, hdr) = (unhex(a[0]), unhex(a[1]));
+        let r = catch_unwind(AssertUnwindSafe(|| DryocStream::init_pull(&key, &hdr)));
+        return Some((match r {
+            Err(_) => "panic".into(),
+            Ok(mut obj) => {
+                if key.len() < 32 || hdr.len() < 24 { "mismatch: accepted a short container".into() } else {
+                    let (k, h): ([u8; 32], [u8; 24]) = (arr(&key[..32]), arr(&hdr[..24]));
+                    let mut st = State::new();
+                    crypto_secretstream_xchacha20poly1305_init_pull(&mut st, &h, &k);
+                    let mut pushing = State::new();
+                    crypto_secretstream_xchacha20poly1305_init_pull(&mut pushing, &h, &k);
+                    let msg = b"prefix view".to_vec();
+                    let mut c = vec![0u8; msg.len() + 17];
+                    crypto_secretstream_xchacha20poly1305_push(&mut pushing, &mut c, &msg, None, 0).unwrap();
+                    match obj.pull_to_vec(&c, None) {
+                        Ok((m, _)) if m == msg => format!("ok {}", st_hex(&st)),
+                        _ => "mismatch: the object does not hold the state of the prefixes".into(),
+                    }
+                }
+            }
+        }, "n/a".into()));
+    }
+    // tag_from_u8 <byte>: `impl From<u8> for Tag`
+    if op == "tag_from_u8" {
+        let b = unhex(a[0])[0];
+        let r = catch_unwind(AssertUnwindSafe(|| Tag::from(b)));
+        return Some((match r { Ok(t) => format!("ok {:02x}", t.bits()), Err(_) => "panic".into() }, "n/a".into()));
+    }
     if op != "sstream" {
         return None;
     }
